@@ -90,8 +90,8 @@ impl Check for C13 {
                 Section { name: "large-maps-boundary-cuts", runs: 1_000 },
             ],
             Tier::Thorough => vec![
-                Section { name: "small-maps-every-cut", runs: 6_000 },
-                Section { name: "large-maps-boundary-cuts", runs: 12_000 },
+                Section { name: "small-maps-every-cut", runs: 30_000 },
+                Section { name: "large-maps-boundary-cuts", runs: 60_000 },
             ],
         }
     }
